@@ -12,17 +12,18 @@ package main
 
 import (
 	"bufio"
-	"math"
-	"encoding/base64"
 	"bytes"
+	"encoding/base64"
 	"encoding/hex"
 	"encoding/json"
 	"flag"
 	"fmt"
 	"io"
+	"math"
 	"os"
 	"reflect"
 	"regexp"
+	"runtime"
 	"sort"
 	"strconv"
 	"strings"
@@ -191,10 +192,16 @@ func newDest(t *dtygen.Ty, rt reflect.Type, v0 *dtygen.Val) (reflect.Value, erro
 	return p, nil
 }
 
-func runSonic(c *cfg, t *dtygen.Ty, rt reflect.Type, v0 *dtygen.Val, in []byte, modelOK bool) (o outcome) {
+func runSonic(c *cfg, t *dtygen.Ty, rt reflect.Type, v0 *dtygen.Val, in []byte, modelOK bool) outcome {
+	o, _ := runSonicKeep(c, t, rt, v0, in, modelOK)
+	return o
+}
+
+// runSonicKeep also returns the destination (a pointer value) so that the caller can look at it again later.
+func runSonicKeep(c *cfg, t *dtygen.Ty, rt reflect.Type, v0 *dtygen.Val, in []byte, modelOK bool) (o outcome, p reflect.Value) {
 	p, err := newDest(t, rt, v0)
 	if err != nil {
-		return outcome{st: "X", err: err.Error()}
+		return outcome{st: "X", err: err.Error()}, reflect.Value{}
 	}
 	defer func() {
 		if r := recover(); r != nil {
@@ -203,13 +210,61 @@ func runSonic(c *cfg, t *dtygen.Ty, rt reflect.Type, v0 *dtygen.Val, in []byte, 
 	}()
 	err = c.api.Unmarshal(in, p.Interface())
 	if err != nil {
-		return outcome{st: "E", err: errClass(err)}
+		return outcome{st: "E", err: errClass(err)}, p
+	}
+	if w := lenOverCap(p.Elem(), 0); w != "" {
+		// the decoder produced a slice header whose length exceeds its capacity: it wrote past an allocation
+		return outcome{st: "P", err: "slice with len > cap in the decoded value: " + w}, p
 	}
 	o = outcome{st: "O", deep: dtygen.DeepDump(p.Elem())}
 	if modelOK {
 		o.view = dtygen.Dump(p.Elem(), t)
 	}
 	return
+}
+
+// lenOverCap looks for a slice whose length exceeds its capacity anywhere in a decoded value.
+func lenOverCap(v reflect.Value, depth int) string {
+	if depth > 60 || !v.IsValid() {
+		return ""
+	}
+	switch v.Kind() {
+	case reflect.Slice:
+		if v.Len() > v.Cap() {
+			return fmt.Sprintf("%s len %d cap %d", v.Type(), v.Len(), v.Cap())
+		}
+		if k := v.Type().Elem().Kind(); k == reflect.Slice || k == reflect.Ptr || k == reflect.Struct || k == reflect.Interface || k == reflect.Map || k == reflect.Array {
+			for i := 0; i < v.Len(); i++ {
+				if w := lenOverCap(v.Index(i), depth+1); w != "" {
+					return w
+				}
+			}
+		}
+	case reflect.Array:
+		for i := 0; i < v.Len(); i++ {
+			if w := lenOverCap(v.Index(i), depth+1); w != "" {
+				return w
+			}
+		}
+	case reflect.Ptr, reflect.Interface:
+		if !v.IsNil() {
+			return lenOverCap(v.Elem(), depth+1)
+		}
+	case reflect.Struct:
+		for i := 0; i < v.NumField(); i++ {
+			if w := lenOverCap(v.Field(i), depth+1); w != "" {
+				return w
+			}
+		}
+	case reflect.Map:
+		it := v.MapRange()
+		for it.Next() {
+			if w := lenOverCap(it.Value(), depth+1); w != "" {
+				return w
+			}
+		}
+	}
+	return ""
 }
 
 // convert json.Number values sitting directly in interface positions (UseInt64 oracle)
@@ -366,31 +421,32 @@ func errClass(err error) string {
 // ------------------------------------------------------------------ classifiers (narrow input classes of the known findings)
 
 type tyFacts struct {
-	fieldNames   map[string]bool
-	hasF32       bool
-	hasRawLeaf   bool
-	mergeableMap bool
-	intKeyMap    bool
-	quotedStr    bool
-	hasStruct    bool
-	hasArr       bool
-	emptyStruct  bool
-	hasIface     bool
-	hasText      bool
-	hasBytes     bool
-	numKeyMap    bool
-	quotedNum    bool // a json.Number field with `,string`
+	fieldNames    map[string]bool
+	hasF32        bool
+	hasRawLeaf    bool
+	mergeableMap  bool
+	intKeyMap     bool
+	quotedStr     bool
+	hasStruct     bool
+	hasArr        bool
+	emptyStruct   bool
+	hasIface      bool
+	hasText       bool
+	hasBytes      bool
+	numKeyMap     bool
+	quotedNum     bool // a json.Number field with `,string`
 	quotedNumeric bool // an int / float field with `,string`
-	ptrPtrUnm    bool // **T (or deeper) where *T implements an unmarshaler
-	u32KeyMap    bool
-	anyMap       bool
-	hasNum       bool
-	hasSlice     bool
-	embPtr       bool
-	quotedBool   bool
-	hasUnsigned  bool
-	mapStrStr    bool
-	fastSlice    bool // a slice type for which optdec has a specialised decoder ([]int32/int64/uint32/uint64/string kinds)
+	ptrPtrUnm     bool // **T (or deeper) where *T implements an unmarshaler
+	u32KeyMap     bool
+	anyMap        bool
+	hasNum        bool
+	hasSlice      bool
+	embPtr        bool
+	quotedBool    bool
+	hasUnsigned   bool
+	mapStrStr     bool
+	quotedUnm     bool // a `,string` field whose type is a scalar kind with an unmarshaler
+	fastSlice     bool // a slice type for which optdec has a specialised decoder ([]int32/int64/uint32/uint64/string kinds)
 }
 
 // dropTrailingCommas removes every `,` that is followed (after whitespace) by `]`, outside string literals.
@@ -618,6 +674,11 @@ func collectFacts(t *dtygen.Ty, f *tyFacts, open map[string]bool) {
 				case dtygen.KNamed:
 					f.quotedNumeric = true
 					f.quotedBool = true
+					for _, id := range dtygen.UnmScalars {
+						if bt.Name == id {
+							f.quotedUnm = true
+						}
+					}
 				}
 			}
 		}
@@ -637,8 +698,10 @@ func collectFacts(t *dtygen.Ty, f *tyFacts, open map[string]bool) {
 		case "Mixed":
 			f.hasBytes, f.quotedNum, f.quotedNumeric, f.quotedStr, f.hasF32, f.hasRawLeaf, f.hasText, f.numKeyMap, f.intKeyMap = true, true, true, true, true, true, true, true, true
 			f.hasNum, f.quotedBool, f.hasSlice = true, true, true
-		case "UnmVal":
+		case "UnmVal", "USJ", "UIJ", "UBJ", "VSJ", "VIJ":
 			f.hasRawLeaf = true
+		case "UST", "UIT", "UBT", "VST":
+			f.hasText = true
 		case "HasIfaceM", "PtrHolder", "Tree":
 			f.hasIface = true
 		case "EmbPtr", "EmbDeep":
@@ -786,6 +849,9 @@ func classify(c *cfg, t *dtygen.Ty, v0 *dtygen.Val, in string) []string {
 	}
 	if f.ptrPtrUnm && strings.Contains(in, "null") {
 		tags = append(tags, "ptrptrunm")
+	}
+	if f.quotedUnm {
+		tags = append(tags, "qunm")
 	}
 	if root == nil {
 		if f.hasBytes && lexB64Pad(in) {
@@ -1091,11 +1157,23 @@ func run() {
 	})
 }
 
+// worker decodes the whole case stream in one process and keeps every decoded destination alive. After the last
+// case (and two forced collections) every destination is dumped again: a value that changed after its Unmarshal
+// returned shares memory with something the decoder reused (pooled parser buffers, the input of a later call).
+// Columns: id, status, dump at decode time, error, tags, validity, structure, model view at decode time,
+// dump at the end of the run ("=" when unchanged), model view at the end of the run ("=" when unchanged).
 func worker() {
 	w := out.Create(*outF)
 	defer w.Close()
+	type kept struct {
+		line []string
+		dest reflect.Value
+		ty   *dtygen.Ty
+		view bool
+	}
+	var all []*kept
 	readCases(*casesF, func(k *caseT) {
-		so := runSonic(k.c, k.ty, k.rt, k.v0, k.in, k.modelOK)
+		so, dest := runSonicKeep(k.c, k.ty, k.rt, k.v0, k.in, k.modelOK)
 		valid, structural := "I", "M"
 		if json.Valid(k.in) && utf8.Valid(k.in) {
 			valid = "V"
@@ -1103,8 +1181,36 @@ func worker() {
 		if dtygen.RefParse(string(k.in), false) != nil {
 			structural = "S"
 		}
-		w.Line(k.id, so.st, dash(so.deep), dash(so.err), dash(strings.Join(classify(k.c, k.ty, k.v0, string(k.in)), ",")), valid, structural, dash(so.view))
+		line := []string{k.id, so.st, dash(so.deep), dash(so.err), dash(strings.Join(classify(k.c, k.ty, k.v0, string(k.in)), ",")), valid, structural, dash(so.view)}
+		e := &kept{line: line, ty: k.ty, view: k.modelOK}
+		if so.st == "O" {
+			e.dest = dest
+		}
+		all = append(all, e)
 	})
+	runtime.GC()
+	runtime.GC()
+	for _, e := range all {
+		late, lateView := "=", "="
+		if e.dest.IsValid() {
+			func() {
+				defer func() {
+					if r := recover(); r != nil {
+						late = "PANIC " + fmt.Sprint(r)
+					}
+				}()
+				if d := dash(dtygen.DeepDump(e.dest.Elem())); d != e.line[2] {
+					late = d
+				}
+				if e.view {
+					if v := dash(dtygen.Dump(e.dest.Elem(), e.ty)); v != e.line[7] {
+						lateView = v
+					}
+				}
+			}()
+		}
+		w.Line(append(e.line, late, lateView)...)
+	}
 }
 
 // ------------------------------------------------------------------ IL listing
